@@ -164,6 +164,31 @@ def run(ck, replay=None):
     darsia = import_darsia()
     rng = random.Random(ck.seed)
     quick = ck.tier == "quick"
+    # two analyses of one image shape with their own baselines / cleaning filters, set up and called along every interleaving
+    # of spec/TwoObjects.tla: each cleans with ITS filter and subtracts ITS baseline
+    from lib import twoobj
+    thists = twoobj.histories(ck)
+    tspecs = []
+    for rgb_ in (False, True):
+        shp = (3, 4, 3) if rgb_ else (3, 4)
+
+        def timg(a, rgb_=rgb_):
+            return darsia.Image(a.copy(), space_dim=2, dimensions=[1.0, 1.0], scalar=not rgb_)
+
+        def make(o, shp=shp, timg=timg):
+            rs = np.random.RandomState(3 if o == "a" else 4)
+            with warnings.catch_warnings():
+                warnings.simplefilter("ignore")
+                return darsia.ConcentrationAnalysis(base=[timg(rs.rand(*shp)) for _ in range(3)], **{"diff option": "plain"})
+
+        def use(o, ca, shp=shp, timg=timg):
+            with warnings.catch_warnings():
+                warnings.simplefilter("ignore")
+                return np.asarray(ca(timg(np.random.RandomState(9).rand(*shp))).img, dtype=float)
+
+        sel = thists if not quick else [h for h in thists if len(h) <= 4]
+        tspecs.append((sel, "analysis-" + ("rgb" if rgb_ else "scalar"), make, use, lambda x, y: x.shape == y.shape and np.allclose(x, y, rtol=1e-9, atol=1e-12), "twin:" + ("rgb" if rgb_ else "scalar")))
+    ck.cov["twin_object_histories"] = twoobj.run(ck, "C13", tspecs)
     if replay:
         cases = [tuple(c["case"]) for c in json.load(open(replay))["cases"]]
     else:
